@@ -55,6 +55,9 @@ XFER = [
     sym('c.jalB', lambda l: L.cinst('c.jal', 'c.jal ' + l, imm=('offset', l)), 'ref'),
     sym('c.beqzB', lambda l: L.cinst('c.beqz', 'c.beqz x8, ' + l, rs1=8, imm=('offset', l)), 'ref'),
     sym('c.bnezB', lambda l: L.cinst('c.bnez', 'c.bnez x9, ' + l, rs1=9, imm=('offset', l)), 'ref'),
+    # 32-bit transfers with the modifier spelled out
+    sym('beqOff', lambda l: I('beq', 'beq x8, x0, %%offset(%s)' % l, rs1=8, rs2=0, imm=('offset', l)), 'ref'),
+    sym('jalOff', lambda l: I('jal', 'jal x1, %%offset(%s)' % l, rd=1, imm=('offset', l)), 'ref'),
     sym('call', lambda l: L.call(l), 'ref'),
     sym('tail', lambda l: L.call(l, tail=True), 'ref'),
 ]
